@@ -127,6 +127,37 @@ theorem decodeChars_hexLower (bs : List UInt8) : Hex.decodeChars (hexLower bs) =
     rw [Hex.decodeChars, charNibble_nibbleChar _ (by omega), charNibble_nibbleChar _ (by omega), ih]
     simp only [u8_split]
 
+theorem decodeChars_length : ∀ (s : Str) (bs : List UInt8), Hex.decodeChars s = some bs → 2 * bs.length = s.length
+  | [], bs, h => by simp [Hex.decodeChars] at h; subst h; rfl
+  | [_], bs, h => by simp [Hex.decodeChars] at h
+  | a :: b :: rest, bs, h => by
+    rw [Hex.decodeChars] at h
+    split at h
+    · rename_i x y r hx hy hr
+      injection h with h
+      subst h
+      have := decodeChars_length rest r hr
+      simp only [List.length_cons]
+      omega
+    · cases h
+
+theorem dropWhile_length_le {α} (p : α → Bool) (l : List α) : (l.dropWhile p).length ≤ l.length := by
+  induction l with
+  | nil => exact Nat.le_refl _
+  | cons a t ih =>
+    rw [List.dropWhile]
+    split
+    · simp only [List.length_cons]; omega
+    · exact Nat.le_refl _
+
+theorem trimSet_length_le (cut : List Char) (s : Str) : (trimSet cut s).length ≤ s.length := by
+  unfold trimSet
+  rw [List.length_reverse]
+  have h1 := dropWhile_length_le (fun x => cut.contains x) (s.dropWhile fun x => cut.contains x).reverse
+  have h2 := dropWhile_length_le (fun x => cut.contains x) s
+  rw [List.length_reverse] at h1
+  omega
+
 theorem hexLower_length (bs : List UInt8) : (hexLower bs).length = 2 * bs.length := by
   induction bs with
   | nil => rfl
